@@ -61,6 +61,22 @@ fn has_knot(t: &Type) -> bool {
     }
 }
 
+/// The whole context chain of an error, innermost cause last, without backtrace.
+pub fn err_chain(e: candid::Error) -> String {
+    let s = match &e {
+        candid::Error::Custom(a) => format!("{a:#}"),
+        other => other.to_string(),
+    };
+    // keep it bounded: dumps of the decoder state can be long
+    if s.len() > 1200 {
+        let cut = s.char_indices().map(|(i, _)| i).take_while(|i| *i <= 500).last().unwrap_or(0);
+        let tail_start = s.char_indices().map(|(i, _)| i).find(|i| *i >= s.len() - 600).unwrap_or(s.len());
+        format!("{} … {}", &s[..cut], &s[tail_start..])
+    } else {
+        s
+    }
+}
+
 fn down<T: 'static>(a: &dyn Any) -> &T {
     a.downcast_ref::<T>().expect("corpus value of the wrong type")
 }
@@ -71,14 +87,14 @@ pub fn dyn_of<T: SimTy>() -> DynType {
         sim_type: T::sim_type,
         ty: T::ty,
         gen: |r, s| Box::new(T::gen(r, s)),
-        arg: |b, v| b.arg(down::<T>(v)).map(|_| ()).map_err(|e| e.to_string()),
-        get: |d| d.get_value::<T>().map(|v| Box::new(v) as Box<dyn Any>).map_err(|e| e.to_string()),
-        encode_one: |v| candid::encode_one(down::<T>(v)).map_err(|e| e.to_string()),
-        encode_args1: |v| Encode!(down::<T>(v)).map_err(|e| e.to_string()),
-        decode_one: |b| candid::decode_one::<T>(b).map(|v| Box::new(v) as Box<dyn Any>).map_err(|e| e.to_string()),
-        decode_macro: |b| Decode!(b, T).map(|v| Box::new(v) as Box<dyn Any>).map_err(|e| e.to_string()),
+        arg: |b, v| b.arg(down::<T>(v)).map(|_| ()).map_err(err_chain),
+        get: |d| d.get_value::<T>().map(|v| Box::new(v) as Box<dyn Any>).map_err(err_chain),
+        encode_one: |v| candid::encode_one(down::<T>(v)).map_err(err_chain),
+        encode_args1: |v| Encode!(down::<T>(v)).map_err(err_chain),
+        decode_one: |b| candid::decode_one::<T>(b).map(|v| Box::new(v) as Box<dyn Any>).map_err(err_chain),
+        decode_macro: |b| Decode!(b, T).map(|v| Box::new(v) as Box<dyn Any>).map_err(err_chain),
         av: |v, c| down::<T>(v).av(c),
-        to_idl: |v| candid::IDLValue::try_from_candid_type(down::<T>(v)).map_err(|e| e.to_string()),
+        to_idl: |v| candid::IDLValue::try_from_candid_type(down::<T>(v)).map_err(err_chain),
         container_add: |c| c.add::<T>(),
         memo_state: || match candid::types::internal::find_type(&T::id()) {
             None => 0,
@@ -94,9 +110,9 @@ pub fn dyn_of<T: SimTy>() -> DynType {
             let t = T::ty();
             let mut g = candid::types::subtype::Gamma::default();
             let env = candid::types::TypeEnv::new();
-            candid::types::subtype::subtype_with_config(candid::types::subtype::OptReport::Silence, &mut g, &env, &t, &t).map_err(|e| e.to_string())?;
+            candid::types::subtype::subtype_with_config(candid::types::subtype::OptReport::Silence, &mut g, &env, &t, &t).map_err(err_chain)?;
             let mut g = candid::types::subtype::Gamma::default();
-            candid::types::subtype::equal(&mut g, &env, &t, &t).map_err(|e| e.to_string())
+            candid::types::subtype::equal(&mut g, &env, &t, &t).map_err(err_chain)
         },
     }
 }
@@ -566,6 +582,9 @@ pub fn build() -> Vec<DynType> {
          VecDeque<Vec<Int>>, VecDeque<Option<String>>, Vec<BTreeSet<Int>>, Vec<HashSet<Nat>>, Vec<[u8; 2]>, Vec<Box<E1>>, Result<Nat, String>, Result<(), Int>, Result<S1, E1>, Vec<Result<u8, String>>, Option<Result<Nat, Int>>,
          std::cmp::Reverse<Int>, std::cell::RefCell<Nat>, Vec<std::time::Duration>, BTreeMap<String, serde_bytes::ByteBuf>, Vec<serde_bytes::ByteBuf>, Option<serde_bytes::ByteBuf>,
          G<Vec<Int>>, G<Option<Nat>>, GE<Vec<u8>>, Vec<G<u8>>, BTreeMap<String, G<Nat>>, Vec<List>, BTreeMap<String, Rose>, Option<Box<Expr>>, Vec<MutA>, (List, Rose), BTreeMap<Int, List>, Vec<KeyW>, Vec<Renamed>, Option<Pair>, Vec<NewT>, Vec<Unit0>, Vec<RcS>, Vec<Bounded>);
+    // upgrade families for wire-sim
+    reg!(v; RecV1, RecV2, RecV3, RecV4, VarV1, VarV2, Option<VarV1>, Option<VarV2>, Vec<RecV1>, Vec<RecV2>, Option<RecV3>, FuncRefV2, ServRefV2, (RecV1, VarV1), (RecV2, Option<VarV2>),
+         BTreeMap<String, RecV1>, BTreeMap<String, RecV2>, Vec<Option<VarV1>>, Vec<Option<VarV2>>, (Nat,), (Int,), (Int, Option<String>), (Nat, String, u8), Option<(Int,)>);
     // names must be unique
     let mut seen = BTreeSet::new();
     v.retain(|d| seen.insert(d.name.clone()));
